@@ -119,6 +119,9 @@ func (lexer *CommonLex) CreateProgram(expr string) (prog []Inst, err error) {
 	errors := fmt.Sprintf("Failed to compile '%s'\n", expr)
 	currentPosInLine :=
 		len(string(expr)) - len(string(lexer.progBldr.lineAtErr))
+	if currentPosInLine < 0 {
+		currentPosInLine = 0
+	}
 	parsedLine := string(expr)[:currentPosInLine]
 	unParsedLine := string(expr)[currentPosInLine:]
 
@@ -156,9 +159,14 @@ func (x *CommonLex) Error(s string) {
 		return
 	}
 	x.progBldr.parseErr = fmt.Errorf("%s", s)
-	if x.peek != xutils.EOF {
+	switch {
+	case x.peek == xutils.ERR:
+		// The look-ahead is an invalid UTF-8 byte: it stands for exactly
+		// one byte of input, whatever the size of the marker rune.
+		x.progBldr.lineAtErr = "?" + string(x.line)
+	case x.peek != xutils.EOF:
 		x.progBldr.lineAtErr = string(x.peek) + string(x.line)
-	} else {
+	default:
 		x.progBldr.lineAtErr = string(x.line)
 	}
 }
